@@ -85,6 +85,7 @@ type FakeTransport struct {
 	MaxChunk int                              // preset segmentation: at most this many bytes per read (0 = read size only)
 	Cuts     bool                             // offer every shorter delivery as an alternative
 	NoCut    func(pending []byte, k int) bool // true: delivering exactly k bytes is not allowed (mid escape sequence)
+	NextEnd  func(off int) int                // when set: a read never crosses the next message end after stream offset off
 
 	StallAt    int // -1: never; else the device goes silent once this many bytes were delivered
 	LossAt     int // -1: never; else the connection is lost once this many bytes were delivered
@@ -142,7 +143,11 @@ func (t *FakeTransport) IsAlive() bool { return !t.closed }
 func (t *FakeTransport) Release() { t.StallAt = -1 }
 
 // Inject appends unsolicited device output.
-func (t *FakeTransport) Inject(b []byte) { t.pending = append(t.pending, b...); t.sent += len(b) }
+func (t *FakeTransport) Inject(b []byte) {
+	t.pending = append(t.pending, b...)
+	t.sent += len(b)
+	t.E.Poke()
+}
 
 // Pending returns the bytes produced by the device and not yet delivered.
 func (t *FakeTransport) Pending() int { return len(t.pending) }
@@ -155,6 +160,7 @@ func (t *FakeTransport) Read(n int) ([]byte, error) {
 	}
 	r := &readReq{n: n, reply: make(chan readResp), th: t.E.CallerThread()}
 	t.req = r
+	t.E.Poke()
 	resp := <-r.reply
 	return resp.b, resp.err
 }
@@ -244,6 +250,11 @@ func (t *FakeTransport) Actions() []sched.EnvAction {
 	}
 	if t.MaxChunk > 0 && def > t.MaxChunk {
 		def = t.MaxChunk
+	}
+	if t.NextEnd != nil {
+		if end := t.NextEnd(t.Delivered); end > 0 && t.Delivered+def > end {
+			def = end - t.Delivered
+		}
 	}
 	for def > 1 && t.NoCut != nil && def < len(t.pending) && t.NoCut(t.pending, def) {
 		def--
